@@ -228,7 +228,7 @@ def run_check(tier, seed):
         #      modes, redefinitions, cancel, second session ending in close or abort) under random configurations, with a
         #      DIFFERENT configuration for the session that re-opens the file (hash-table sizes, header chunk, alignment, ...):
         #      every by-name inquiry and all data must equal the configuration-free specification
-        nC = 40 if tier == 'thorough' else 8
+        nC = 50 if tier == 'thorough' else 12
         for k in range(nC if nfail < 3 else 0):
             hints, env, _ = rand_config(rng)
             oh, _, _ = rand_config(rng)
